@@ -1,4 +1,82 @@
-import Ramses.Model.Match
+/-
+  C07 — every send completes in bounded time with the right packet or a protocol error.
+  Model: Model/Qos.lean (macro-step abstraction, see C08).
+-/
+import Ramses.Proofs.QosInv
 namespace Ramses.C07
-open Ramses
+open Ramses Ramses.Qos
+
+/-- **never another command's packet**: whatever the run, a caller that is handed an echo was
+    handed it because an echo *of its own command* arrived, and likewise for a reply; every other
+    outcome is a failure of the protocol-error family (`Out` has no other constructor) -/
+theorem outcome_belongs (fails : List (Nat × Nat)) (evs : List (Nat × Ev)) (id : Nat) (o : Out) (t : Nat)
+    (h : (id, o, t) ∈ (run (init fails) evs).outcomes) :
+    o = .failed ∨ (o = .echo ∧ ∃ t', (t', Ev.echo id) ∈ evs) ∨ (o = .reply ∧ ∃ t', (t', Ev.reply id) ∈ evs) := by
+  rcases run_outcome (init fails) evs (id, o, t) h with h | h | h | h
+  · simp [init] at h
+  · exact Or.inl h
+  · exact Or.inr (Or.inl h)
+  · exact Or.inr (Or.inr h)
+
+/-- **bounded**: once time has been advanced to `t` and nothing is left due, every caller whose
+    own timeout (capped at 20 s, measured from its call) lies at or before `t` has been answered -/
+theorem pickCaller_some (l : List QCmd) (acc : Option (Nat × Option Nat)) (h : acc ≠ none ∨ l ≠ []) :
+    l.foldl pickCaller acc ≠ none := by
+  induction l generalizing acc with
+  | nil => rcases h with h | h; exact h; exact absurd rfl h
+  | cons x xs ih =>
+    simp only [List.foldl_cons]
+    apply ih; left
+    cases acc with
+    | none => simp [pickCaller]
+    | some p => obtain ⟨w, i⟩ := p; simp only [pickCaller]; split <;> simp
+
+theorem caught_up_answered (s : S) (t : Nat) (h : nextDue s t = none) (c : QCmd)
+    (hc : c ∈ s.que ∨ s.cur = some c) (hd : c.deadline ≤ t) : s.outcomes.any (·.1 = c.id) = true := by
+  cases ha : s.outcomes.any (·.1 = c.id) with
+  | true => rfl
+  | false =>
+    exfalso
+    have hmem : c ∈ dueCallers s t := by
+      simp only [dueCallers, List.mem_filter, List.mem_append, Bool.and_eq_true, Bool.not_eq_true', decide_eq_true_eq]
+      refine ⟨?_, ha, hd⟩
+      rcases hc with hc | hc
+      · exact Or.inl hc
+      · exact Or.inr (by rw [hc]; simp)
+    have hne : firstCaller s t ≠ none := pickCaller_some _ none (Or.inr (List.ne_nil_of_mem hmem))
+    unfold nextDue at h
+    cases hfc : firstCaller s t with
+    | none => exact hne hfc
+    | some p =>
+      obtain ⟨cw, ci⟩ := p
+      simp only [hfc] at h
+      split at h
+      · split at h
+        · split at h <;> cases h
+        · cases h
+      · cases h
+
+/-- a call made while disconnected, or into a full buffer, is answered at once (with an error) -/
+theorem refused_at_once (s : S) (c : QCmd) (h : s.st = .inactive ∨ s.que.length ≥ maxBuffer) :
+    (c.id, Out.failed, s.now) ∈ (apply s (.call c)).outcomes := by
+  show (c.id, Out.failed, s.now) ∈ (if s.st = .inactive then answer { s with called := s.called ++ [c] } c.id .failed
+      else if s.que.length ≥ maxBuffer then answer { s with called := s.called ++ [c] } c.id .failed
+      else (if ({ s with que := s.que ++ [c], called := s.called ++ [c] } : S).st = .idle
+            then goIdle (fuelOf { s with que := s.que ++ [c], called := s.called ++ [c] }) { s with que := s.que ++ [c], called := s.called ++ [c] }
+            else { s with que := s.que ++ [c], called := s.called ++ [c] })).outcomes
+  rcases h with h | h
+  · rw [if_pos h]; simp [answer]
+  · by_cases h1 : s.st = .inactive
+    · rw [if_pos h1]; simp [answer]
+    · rw [if_neg h1, if_pos h]; simp [answer]
+
+/-- non-vacuity: prompt echo and reply; reply before echo; everything lost -/
+example :
+    (run (init []) [(0, .call ⟨0, 0, 0, 3, true, true, 20000000⟩), (20000, .echo 0), (100000, .reply 0)]).outcomes
+      = [(0, .reply, 100000)] ∧
+    (run (init []) [(0, .call ⟨0, 0, 0, 3, false, true, 20000000⟩), (10000, .reply 0)]).outcomes = [(0, .reply, 10000)] ∧
+    (run (init []) [(0, .call ⟨0, 0, 0, 3, false, true, 20000000⟩), (20000, .echo 0)]).outcomes = [(0, .echo, 20000)] ∧
+    (advance 64 (run (init []) [(0, .call ⟨0, 0, 0, 3, false, true, 1000000⟩)]) 2000000).outcomes = [(0, .failed, 1000000)] := by
+  decide +kernel
+
 end Ramses.C07
